@@ -360,3 +360,15 @@ for _k, _v in _MORE5.items():
     CONFIG[_k]["rule"] += _v
 for _k in CONFIG:
     CONFIG[_k]["rule"] += " A third of the shards run with the process-local time zone set to UTC+2, a third to UTC-9:30."
+
+# Extensions that came out of the sixth round of seeded changes.
+_MORE6 = {
+    "C01": " One case in twelve has about a third of its rows unordered (high below low, close outside the range). 47 of the 64 indicators have a field route (and with it the reconfigured-instance route).",
+    "C06": " TripleRsi's three RSI levels are drawn independently (10..90 in steps of 10).",
+    "C08": " A quarter of the buy-and-hold snapshots have a close outside the bar's high/low range.",
+    "C10": " The batch of an Append arrives through helper.SliceToChan, through a buffered channel that already holds all of it, or through one that is half full when Append starts.",
+    "C11": " A third of the JSON snapshot dates carry milli- or nanoseconds.",
+    "C19": " tiingo/slow-body: once per run a well-formed body of 3000 records is served in two parts 11 s apart (31 s in the thorough tier) to a repository built by asset.NewRepository; half of the ordinary Tiingo cases use the factory too.",
+}
+for _k, _v in _MORE6.items():
+    CONFIG[_k]["rule"] += _v
